@@ -489,9 +489,12 @@ func Datetime(errBuf *strings.Builder, validName, objName, fieldName string, tv 
 	_, val, cusMsg := ParseValidNameKV(validName)
 	defaultSplit := []string{"-", " ", ":"}
 	if val != "" {
-		for i, split := range strings.Split(strings.Trim(val, "'"), ",") {
-			defaultSplit[i] = split
+		splits := strings.Split(strings.Trim(val, "'"), ",")
+		if len(splits) > len(defaultSplit) {
+			errBuf.WriteString(GetJoinFieldErr(objName, fieldName, datetimeErr))
+			return
 		}
+		copy(defaultSplit, splits)
 	}
 	err := parseTimeStrict(GetTimeFmt(DateTimeFmt, defaultSplit...), tv.String())
 	if err == nil {
